@@ -63,7 +63,7 @@ class C06(Check):
             for driver in DRIVERS:
                 for size in (2, 3, 4, 5, 8):
                     variants = ["dataframe/centres", "hdf5/index", "random/centres", "dataframe/index", "dataframe/generate",
-                                "fits/centres", "parquet/index"] if driver == "create" else ["-"]
+                                "fits/centres", "parquet/index", "dataframe/empty_centre"] if driver == "create" else ["-"]
                     for var in variants:
                         if q and driver == "create" and size in (5,) and var != "dataframe/centres":
                             continue
@@ -248,7 +248,8 @@ class C06(Check):
                     cross_msgs = len(msgs)
                     msgs_txt = {v["message"] for v in rep["failed"].values()}
                     documented = types == {"ValueError"} and all("at least two workers" in m for m in msgs_txt)
-                    if all_failed and cross_msgs == 0 and (documented or (ref_raised and ref["type"] in types)):
+                    like_reference = ref_raised and types == {ref["type"]}  # every rank fails the way a single process does
+                    if all_failed and (like_reference or (cross_msgs == 0 and documented)):
                         # consistent refusal on every rank before any communication
                         if ref_raised and ref["type"] in types:
                             counters["consistent_errors_like_reference"] = counters.get("consistent_errors_like_reference", 0) + 1
